@@ -229,7 +229,19 @@ class Context:
             for r in opaque_roles:
                 opaque |= set(self.role(r))
         eng = E.Engine(facts, opaque=opaque, **kw)
+        self._engines = getattr(self, '_engines', [])
+        self._engines.append(eng)
         return eng
+
+    def unmodelled_library_calls(self):
+        """names of std/core/alloc functions that some engine of this context met without having a model for them"""
+        out = {}
+        for eng in getattr(self, '_engines', []):
+            for n, k in eng.unmodelled.items():
+                if n.startswith(('std::', 'core::', 'alloc::')) or (n.startswith('<') and (' as std::' in n or ' as core::' in n or ' as alloc::' in n)
+                                                                     and 'chrono::' not in n.split(' as ')[0]):
+                    out[n] = out.get(n, 0) + k
+        return out
 
 
 def short_fn(p):
